@@ -60,18 +60,39 @@ func c14Request(cmd string, i int) []byte {
 
 // c14Entry runs one API entry of the server (one per goroutine in the pair harness).
 func c14Entry(server *Server, name string) {
+	// Native confirmation of a race candidate (go test -race) only sees a race whose two accesses are
+	// not ordered on the schedule that happens to run; the entry is therefore repeated there so that
+	// the window between its accesses and the other goroutine's is hit. The engine runs it once.
+	reps := 1
+	if vsymIsReplay() {
+		reps = 60
+	}
 	if len(name) > 4 && name[:4] == "cmd:" {
 		// "cmd:<i>:<NAME>": PING (so that the connection is fully set up), then the canned request
 		i := int(name[4] - '0')
-		server.receive(newVconn(append(vReqS("PING"), c14Request(name[6:], i)...)), nil)
+		for r := 0; r < reps; r++ {
+			server.receive(newVconn(append(vReqS("PING"), c14Request(name[6:], i)...)), nil)
+		}
 		return
 	}
 	if args, ok := c14Requests[name]; ok {
-		var in []byte
-		if len(args) > 0 {
-			in = vReqS(args...)
+		for r := 0; r < reps; r++ {
+			var in []byte
+			if len(args) > 0 {
+				in = vReqS(args...)
+			}
+			server.receive(newVconn(in), nil)
 		}
-		server.receive(newVconn(in), nil)
+		return
+	}
+	if reps > 1 && (name == "rotate" || name == "restart") {
+		for r := 0; r < 8; r++ {
+			if name == "rotate" {
+				server.SetRequirePass([]string{"pw3", "pw4"}[r%2])
+			}
+			server.Restart()
+		}
+		server.Stop()
 		return
 	}
 	switch name {
